@@ -19,7 +19,7 @@ PARALLEL = 6
 IMPORTS = "From Verif Require C01.Model C04.Model.\nFrom Verif Require Import C09.Model C09.Spec C09.Corr.\nFrom VerifGen Require Import C09Abbrev."
 CASE_TYPE = "C09.Corr.case"
 RUNNER = "C09.Corr.run"
-FINDING_CLASSES = {1: "C09-F1", 2: "C09-F2"}
+FINDING_CLASSES = {1: "C09-F1", 2: "C09-F2"}  # both fixed: seeing a class again is a violation
 RULE = ("complete lattice sign_response x sign_assertion given as argument (None/True/False) x as configuration "
         "(unset/True/False/'true'/'false'/''/'yes') = 441 cells, each Response also shown to an SP; complete product "
         "NameIDPolicy (absent, or Format in None/''/transient/persistent/emailAddress/unspecified x SPNameQualifier in "
